@@ -176,9 +176,7 @@ def rule_sent(R):
         R.ob("sent/marker/%s" % q, len(sent_fns.get(q, ())) == 1,
              "exactly one function marks entries of `%s` as Sent (found %s)" % (q, sorted(sent_fns.get(q, ()))))
     cm = roles.conn_methods(f)
-    if "complete_flush" not in cm:
-        raise AnchorLost("Connection::complete_flush")
-    b, code = cm["complete_flush"]
+    b, code = roles.flush_completion(f)
     R.touch(code)
     # the match on the FlushedPacket kind
     n = 0
@@ -210,19 +208,26 @@ def rule_sent(R):
     if "perform_outbound_step" not in cm:
         raise AnchorLost("Connection::perform_outbound_step")
     pb, pcode = cm["perform_outbound_step"]
-    sw = None
-    for bb in pcode.switches:
+    sws = []
+    for bb in sorted(pcode.switches):
         si = pcode.switch_info(bb)
-        if si["enum"] and si["enum"].endswith("OutboundStep") and set(KIND_QUEUE) <= set(si["edges"]):
-            sw = si
-    if sw is None:
+        if bb in pcode.reachable and si["enum"] and si["enum"].endswith("OutboundStep") and set(KIND_QUEUE) <= set(si["edges"]):
+            sws.append(si)
+    if not sws:
         raise AnchorLost("perform_outbound_step:match-on-step")
+    sw = sws[-1]
     m = 0
     for bb, j, s in pcode.assigns():
         rv = s["rv"]
         if bb in pcode.reachable and "agg" in rv and (rv["agg"].get("adt") or "").endswith("FlushedPacket"):
             kind = rv["agg"]["variant"]
-            arms = [k for k, t in sw["edges"].items() if bb in pcode.reach([t])]
+            # the arm of *a* match on the step the record is built in (the step may be matched more than once: a first
+            # match that only derives the record, then the one that prepares the write)
+            arms = None
+            for sw_ in sws:
+                a_ = [k for k, t in sw_["edges"].items() if bb in pcode.reach([t])]
+                if arms is None or (len(a_) == 1 and len(arms) != 1):
+                    arms = a_
             t = pcode.rvalue_term(rv)
             src = t[5][0] if t[5] else None
             r2, n2 = chain(src) if src else (None, [])
